@@ -287,8 +287,16 @@ def run_sparse_case(case, res):
     from architecture_simulator.uarch.riscv.riscv_performance_metrics import RiscvPerformanceMetrics
 
     cfg = case["icache"]
-    plain = InstructionMemory()
-    ims = InstructionMemoryCacheSystem(InstructionMemory(), cfg["ib"], cfg["bb"], cfg["assoc"], RiscvPerformanceMetrics(), cfg["pen"], cfg["policy"])
+    if case.get("range"):
+        # an instruction memory whose address range does not end (or start) on a block boundary (public constructor
+        # argument): the block straddling the bound is filled with the slots that exist
+        rg = range(*case["range"])
+        res.count("custom_instruction_address_ranges")
+        plain = InstructionMemory(address_range=rg)
+        ims = InstructionMemoryCacheSystem(InstructionMemory(address_range=rg), cfg["ib"], cfg["bb"], cfg["assoc"], RiscvPerformanceMetrics(), cfg["pen"], cfg["policy"])
+    else:
+        plain = InstructionMemory()
+        ims = InstructionMemoryCacheSystem(InstructionMemory(), cfg["ib"], cfg["bb"], cfg["assoc"], RiscvPerformanceMetrics(), cfg["pen"], cfg["policy"])
     objs = {}
     for a, d in case["image"]:
         o = build_instr(d, a)
@@ -306,6 +314,9 @@ def run_sparse_case(case, res):
     st = ims.get_cache_stats()
     if (int(st["hits"]), int(st["accesses"])) != (rc.hits, rc.accesses):
         res.violation("C11", "fetch-accounting", "sparse instruction memory: (hits, accesses)=%r reference=%r" % ((st["hits"], st["accesses"]), (rc.hits, rc.accesses)), case)
+        return
+    if case.get("range"):
+        res.nontrivial(h64(case))
         return
     # program level: same image with and without I-cache, both modes
     for mode in ("single", "five"):
@@ -345,7 +356,18 @@ def gen_sparse_case(rng):
             d = G._alu(rng, [1, 2, 3, 5])
         image.append((4 * sl, d))
     fetches = [4 * rng.choice(slots) for _ in range(rng.randint(5, 40))]
-    return {"kind": "sparse", "icache": rand_icfg(rng), "image": image, "fetches": fetches}
+    case = {"kind": "sparse", "icache": rand_icfg(rng), "image": image, "fetches": fetches}
+    if rng.random() < 0.3:
+        lo = 4 * slots[0] if rng.random() < 0.5 else 0
+        if rng.random() < 0.5:
+            # image shifted up so that the range can start inside a block
+            sh = 4 * rng.choice([1, 2, 3, 5])
+            case["image"] = [(a + sh, d) for a, d in image]
+            case["fetches"] = [a + sh for a in fetches]
+            lo = sh
+        hi = max(a for a, _ in case["image"]) + 4 * rng.choice([1, 1, 2, 3])
+        case["range"] = [lo, hi]
+    return case
 
 
 def directed_cases():
